@@ -9,6 +9,8 @@
  C12.e  one mask filters the delayed partitions, the divisions and the bounds tables of ALL geometry columns (each followed
         by an index reset); the result's _partition_bounds is the filtered table.
  C12.f  the filter uses the bounds of the active geometry (meta.geometry.name after set_geometry).
+ C12.j  a dataset's bounds table is reported only when it has one row per file that is read (the metadata describes every
+        file of the dataset it was written with; a list or glob of some part files must not get the whole table - D31).
  C12.g  cached partition bounds are propagated by DaskGeoDataFrame.__getitem__ only for column selections (never for row
         selections, whose partitions hold different rows).
 """
@@ -305,6 +307,7 @@ def run(P, R, tier):
         R.check(may_none, 'C12.i', reader, rets[0] if rets else None, 'the loader can answer None ("no recorded bounds"), the sentinel the reader tests for',
                 f'{reader.name} never returns None, but {perform.name} recognises a dataset without recorded bounds by `is None`: with one such dataset in a list the reader keeps the '
                 'bounds of the other datasets only, and everything reduced from them (total_bounds, cx pruning, Hilbert grid) covers part of the frame', construct='no-bounds sentinel agreement')
+    bounds_rows_match_files(P, R, reader, perform)
     # ---------------------------------------------------------------- C12.d filter (E-ORD) + C12.e + C12.f
     blk = None
     for s in astq.own_nodes(perform, ast.If):
@@ -507,6 +510,124 @@ def run(P, R, tier):
     # ---------------------------------------------------------------- C12.h nothing on the read path is memoised
     from rules import common as _cmh
     _cmh.read_path_not_memoised(P, R, 'C12.h')
+
+
+
+FILE_TOKENS = ('.files', '.fragments', '.pieces', 'num_fragments')
+
+
+def _flow_names(f, is_seed):
+    """Forward closure: the local names of f whose value derives from an expression accepted by `is_seed` (through assignments, unpacking, loop and
+    comprehension targets, subscript / attribute stores into a container, and the filling methods of containers)."""
+    T = set()
+
+    def base(t):
+        while isinstance(t, (ast.Subscript, ast.Attribute, ast.Starred)):
+            t = t.value
+        return t
+
+    def targets(t):
+        if isinstance(t, (ast.Tuple, ast.List)):
+            out = set()
+            for e in t.elts:
+                out |= targets(e)
+            return out
+        b = base(t)
+        return {b.id} if isinstance(b, ast.Name) else set()
+    changed = True
+    while changed:
+        changed = False
+        for n in walk_own(f.node):
+            pairs = []
+            if isinstance(n, ast.Assign):
+                for t in n.targets:
+                    pairs.append((targets(t), n.value))
+            elif isinstance(n, (ast.AnnAssign, ast.AugAssign)) and n.value is not None:
+                pairs.append((targets(n.target), n.value))
+            elif isinstance(n, (ast.For, ast.comprehension)):
+                pairs.append((targets(n.target), n.iter))
+            elif isinstance(n, ast.NamedExpr):
+                pairs.append(({n.target.id}, n.value))
+            elif isinstance(n, ast.Call) and isinstance(n.func, ast.Attribute) and n.func.attr in ('append', 'extend', 'update', 'setdefault', 'insert', 'add'):
+                b = base(n.func.value)
+                if isinstance(b, ast.Name):
+                    for a in list(n.args) + [k.value for k in n.keywords]:
+                        pairs.append(({b.id}, a))
+            for names, v in pairs:
+                if not names or names <= T:
+                    continue
+                if is_seed(v) or (astq.names_in(v) & T):
+                    T |= names
+                    changed = True
+    return T
+
+
+def bounds_rows_match_files(P, R, reader, perform):
+    """C12.j (D31).  _common_metadata holds one bounds row per file of the dataset AS WRITTEN.  The loader is handed whatever set of files is being read - the
+    whole directory, or one part file out of a glob / list - and finds the metadata through the parent directory of the first file, so the table it reads can
+    describe other files than the ones read.  Rows are matched with partitions by position: the table may only be reported when a comparison of its row count
+    with the number of files read stands between the metadata and the caller (or the rows are selected by file)."""
+    rm = P.func(PQ, '_read_metadata')
+
+    def calls(f, target):
+        return lambda v: any(isinstance(c, ast.Call) and astq.is_call_to(P, f, c, target) for c in ast.walk(v))
+    found, selected, seen = [], [], 0
+    for f, seed in ((reader, calls(reader, rm)), (perform, calls(perform, reader))):
+        T = _flow_names(f, seed)
+        if not T:
+            continue
+        seen += 1
+
+        def env(node):
+            """comprehension / loop targets in scope of `node` -> their iterables, so that `len(b) for b in tables.values()` is read as a length of `tables`"""
+            out, p_ = {}, getattr(node, '_parent', None)
+            while p_ is not None and p_ is not f.node:
+                gens = p_.generators if isinstance(p_, (ast.GeneratorExp, ast.ListComp, ast.SetComp, ast.DictComp)) else ([p_] if isinstance(p_, ast.For) else [])
+                for g_ in gens:
+                    for x in ast.walk(g_.target):
+                        if isinstance(x, ast.Name):
+                            out.setdefault(x.id, g_.iter)
+                p_ = getattr(p_, '_parent', None)
+            return out
+
+        def side(f, e, en):
+            ex = astq.expand(f, e)
+            names = set(astq.names_in(ex))
+            txt = norm(ex)
+            for nm in list(names):
+                if nm in en:
+                    names |= astq.names_in(en[nm])
+                    txt += ' ' + norm(astq.expand(f, en[nm]))
+            return names, txt
+        for c in ast.walk(f.node):
+            if isinstance(c, ast.Compare) and len(c.ops) == 1 and isinstance(c.ops[0], (ast.Eq, ast.NotEq, ast.Lt, ast.Gt, ast.LtE, ast.GtE)):
+                en = env(c)
+                a, b = side(f, c.left, en), side(f, c.comparators[0], en)
+                for x, y in ((a, b), (b, a)):
+                    counts = any(k in x[1] for k in ('len(', '.shape', '.size', 'count'))
+                    if (x[0] & T) and counts and any(k in y[1] for k in FILE_TOKENS) and not any(k in x[1] for k in FILE_TOKENS):
+                        found.append((f, c))
+            # rows picked per file: the table subscripted / re-indexed with something computed from the files
+            if isinstance(c, ast.Subscript) or (isinstance(c, ast.Call) and isinstance(c.func, ast.Attribute) and c.func.attr in ('take', 'reindex', 'loc', 'iloc')):
+                holder = c.value if isinstance(c, ast.Subscript) else c.func.value
+                idx = c.slice if isinstance(c, ast.Subscript) else (c.args[0] if c.args else None)
+                if idx is not None and (astq.names_in(holder) & T):
+                    en = env(c)
+                    if any(k in side(f, idx, en)[1] for k in FILE_TOKENS):
+                        selected.append((f, c))
+    if not seen:
+        raise AnalysisError('C12.j: the metadata read feeding the bounds tables was not found')
+    if found:
+        f, c = found[0]
+        R.ok('C12.j', f, c, 'the bounds table of a dataset is reported only when it has one row per file read', construct='rows of the metadata table vs files read')
+    elif selected:
+        f, c = selected[0]
+        R.ok('C12.j', f, c, 'the rows of the bounds table are selected by the files read', construct='rows of the metadata table vs files read')
+    else:
+        rets_ = [r_ for r_ in walk_own(reader.node) if isinstance(r_, ast.Return)]
+        R.bad('C12.j', reader, rets_[-1] if rets_ else None, f'{reader.name} reads the bounds table from the _common_metadata next to the FIRST file it is given and reports it whatever files are being read: '
+              'for a glob or list of part files every file read gets the whole table of the dataset (16 rows for 4 partitions), row i no longer describes partition i, and cx / bounds= '
+              'prune on the extents of other files or fail', construct='rows of the metadata table vs files read')
 
 
 def _enclosing_if_test(node):
